@@ -70,9 +70,14 @@ fn main() {
             let t0 = Instant::now();
             // regression tier: saved replays first (strict: no known-finding tolerance unless listed)
             let mut replay_results = vec![];
-            let rdir = evidence::verif_root().join("replays").join(&id);
             let mut violations: Vec<(evidence::Violation, std::path::PathBuf)> = vec![];
-            if let Ok(rd) = std::fs::read_dir(&rdir) {
+            // replays/: written by earlier runs of the checks; regress/: committed cases of repaired defects
+            for sub in ["regress", "replays"] {
+                let rdir = evidence::verif_root().join(sub).join(&id);
+                let rd = match std::fs::read_dir(&rdir) {
+                    Ok(rd) => rd,
+                    Err(_) => continue,
+                };
                 let mut files: Vec<_> = rd.filter_map(|e| e.ok()).map(|e| e.path()).filter(|p| p.extension().map(|x| x == "json").unwrap_or(false)).collect();
                 files.sort();
                 for f in files {
